@@ -45,6 +45,7 @@ fn main() {
         "C18" => verif_harness::props::c18::run(&cfg),
         "C13" => verif_harness::props::c13::run(&cfg),
         "C09" => verif_harness::props::c09::run(&cfg),
+        "C08" => verif_harness::props::c08::run(&cfg),
         "STRUCT" => verif_harness::props::structs::run_model(&cfg),
         _ => {
             eprintln!("unknown property {prop}");
